@@ -53,7 +53,7 @@ func (e *Engine) newRun(name, mode string, props []string) *run {
 		mode = e.Mode
 	}
 	return &run{E: e, mode: mode, name: name, props: props, autoTransparent: map[string]bool{}, havocExterns: map[string]bool{},
-		assumedContracts: map[string]bool{}, pvSorts: map[string]*smt.Sort{}}
+		assumedContracts: map[string]bool{}, pvSorts: map[string]*smt.Sort{}, autoUnrolled: map[string]bool{}}
 }
 
 func sortedKeys(m map[string]bool) []string {
@@ -150,6 +150,7 @@ func (e *Engine) verifyFuncInstance(rep *FuncReport, fn *ssa.Function, fc *contr
 			rep.Obligations = append(rep.Obligations, &Obligation{Name: name + "#contract", Kind: "subset", Props: fc.Props, Func: name, Err: m})
 		}
 		rep.AutoTransparent = mergeSorted(rep.AutoTransparent, sortedKeys(r.autoTransparent))
+		rep.AutoTransparent = mergeSorted(rep.AutoTransparent, sortedKeys(r.autoUnrolled))
 		rep.HavocExterns = mergeSorted(rep.HavocExterns, sortedKeys(r.havocExterns))
 		rep.Assumed = mergeSorted(rep.Assumed, sortedKeys(r.assumedContracts))
 	}()
@@ -226,11 +227,13 @@ func (e *Engine) verifyFuncInstance(rep *FuncReport, fn *ssa.Function, fc *contr
 	for _, ax := range e.Axioms {
 		aen := &env{r: r, pkg: ax.Pkg, vars: map[string]TV{}, cur: pre, old: pre, fr: fr}
 		r.assume(c.True(), aen.evalBool(ax.Spec.Body))
+		r.assumedContracts["axiom: "+ax.Spec.Text] = true
 	}
 	// vacuity: the preconditions (with typing assumptions) are satisfiable
 	r.obls = append(r.obls, &Obligation{Name: name + "#vacuity[requires]", Kind: "vacuity", Props: fc.Props, Func: name,
 		Facts: r.facts[:len(r.facts):len(r.facts)], Goal: c.True(), Expect: "sat", Text: "preconditions are satisfiable"})
 
+	r.written = map[string]bool{}
 	fr.runRegion(nil, nil)
 
 	// exit state
@@ -263,9 +266,12 @@ func (e *Engine) verifyFuncInstance(rep *FuncReport, fn *ssa.Function, fc *contr
 		res := r.mergeVals(conds, vals)
 		bindResults(en2, fc, fn.Signature.Results(), res)
 	}
+	if len(exit.preds) > 0 {
+		r.frameObligations(fr, en2, pre, exit, fc.Modifies, alloc0)
+	}
 	for k, cl := range fc.Ensures {
 		g := en2.evalBool(cl.Expr)
-		cs := smt.Conjuncts(g)
+		cs := r.C().SplitGoal(g)
 		for j, cj := range cs {
 			label := fmt.Sprintf("%d", k)
 			if cl.Label != "" {
@@ -442,6 +448,7 @@ func (e *Engine) verifyLemmaInstance(rep *FuncReport, lr *LemmaRef, inst foreach
 		}
 		rep.Obligations = append(rep.Obligations, r.obls...)
 		rep.AutoTransparent = mergeSorted(rep.AutoTransparent, sortedKeys(r.autoTransparent))
+		rep.AutoTransparent = mergeSorted(rep.AutoTransparent, sortedKeys(r.autoUnrolled))
 		rep.HavocExterns = mergeSorted(rep.HavocExterns, sortedKeys(r.havocExterns))
 		rep.Assumed = mergeSorted(rep.Assumed, sortedKeys(r.assumedContracts))
 	}()
@@ -505,7 +512,7 @@ func (e *Engine) verifyLemmaInstance(rep *FuncReport, lr *LemmaRef, inst foreach
 					Facts: r.facts[:len(r.facts):len(r.facts)], Goal: en.cur.alive, Expect: "sat", Text: "lemma hypotheses are satisfiable"})
 			}
 			g := en.evalBool(st.Expr)
-			cs := smt.Conjuncts(g)
+			cs := r.C().SplitGoal(g)
 			for j, cj := range cs {
 				nm := fmt.Sprintf("assert[%d", nAssert)
 				if st.Label != "" {
